@@ -36,6 +36,10 @@ type irAccess struct {
 var raceLoc = regexp.MustCompile(`(?m)^\s+(/[^\s:]+\.go):(\d+)`)
 
 func runC11(c *Ctx) {
+	// several goroutines on one socket at the same instant: nothing accepted may be left behind
+	runPushBurst(c)
+	runPushBurstHeavy(c)
+	runSubUnsubscribeRace(c)
 	c.Rep.Rule = "concurrent API stress (10 goroutines per pair of connected sockets issuing Send, Recv, option get/set on sockets, contexts, dialers, listeners and pipes, OpenContext, Dial, Listen, pipe / context / socket Close) under the Go race detector for 16 pattern pairs x transports; class = (pattern, transport) completed, and one class per distinct racing field"
 	self, _ := os.Executable()
 	bin := filepath.Join(filepath.Dir(self), "racer")
